@@ -153,8 +153,9 @@ class Ctx:
 
 
 class LoopCtx(Ctx):
-    def __init__(self, eng, h0, h, args, env, i, n, hl, envl, getitem):
+    def __init__(self, eng, h0, h, args, env, i, n, hl, envl, getitem, outer=()):
         super().__init__(eng, h0, h, args)
+        self.outer = list(outer)  # index terms of the enclosing loops, innermost last
         self.env = env
         self.i = i
         self.n = n
@@ -407,6 +408,8 @@ class Engine:
             if st is not None:
                 st.assume(t < st.heap.alloc)
                 st.assume(t > 0 if nonnull else t >= 0)
+                if self.h0 is None or st.heap.alloc.eq(self.h0.alloc):
+                    st.heap.mark_old(t)
             return Val(ty, t)
         if k == "xint":
             return Val(XINT, fresh(name), fresh(name + "_inf", B))
@@ -485,6 +488,7 @@ class Engine:
         self.loop_ordinal = 0
         start = len(self.obligations)
         h0 = Heap(tag="0")
+        self.h0 = h0
         st = State({}, h0, [])
         st.assume(h0.alloc > 0)
         ptypes = self.param_types(fi, contract)
@@ -509,6 +513,11 @@ class Engine:
         # vacuity guard: the precondition must be satisfiable
         self.cover_pc = list(st.pc)
         self.anchors_hit = set()
+        entry = getattr(contract, "ghost_entry", None)
+        if entry is not None:
+            # ghost code at function entry: ghost locals (`$name`), ghost calls of pure verified
+            # functions through their contracts, instances of proved lemmas
+            entry(c0, st)
         finals = self.exec_block(fi.body(), st)
         for key in getattr(contract, "ghost_after", {}) or {}:
             if key not in self.anchors_hit:
@@ -623,6 +632,7 @@ class Engine:
             na = fresh("alloc")
             st.assume(na >= h.alloc)
             hn.alloc = na
+            hn.mark_alloc(na)
         for region in ("c", "o"):
             spec = frame.lists if region == "c" else frame.olists
             changed = spec is not None and (callable(spec) or isinstance(spec, str) or len(spec) > 0)
@@ -1001,6 +1011,10 @@ class Engine:
             for n in ast.walk(s):
                 if isinstance(n, ast.Name) and isinstance(n.ctx, ast.Store):
                     names.add(n.id)
+                # sets are values: `s.add(x)` / `s.update(xs)` rebinds the local
+                if (isinstance(n, ast.Call) and isinstance(n.func, ast.Attribute) and n.func.attr in ("add", "update")
+                        and isinstance(n.func.value, ast.Name)):
+                    names.add(n.func.value.id)
         return names
 
     def st_For(self, s, st):
@@ -1028,9 +1042,11 @@ class Engine:
         tag = f"loop{ordinal}"
         n = view.n if is_for else None
 
+        outer_idx = list(getattr(self, "loop_stack", []))
+
         def lctx(state, i):
             return LoopCtx(self, self.h0, state.heap, self.args0, state.env, i, n, hl, envl,
-                           (lambda j: view.get(hl, j)) if is_for else None)
+                           (lambda j: view.get(hl, j)) if is_for else None, outer_idx)
 
         # 1. invariant on entry
         if spec.invariant:
@@ -1053,6 +1069,7 @@ class Engine:
             for nm, p in spec.invariant(lctx(head, i)):
                 head.assume(p, nm)
         results = []
+        self.loop_stack = outer_idx + [i]
         if is_for:
             item = view.get(hl, i)
             body_states = self.assign(s.target, item, head)
@@ -1073,6 +1090,7 @@ class Engine:
                         d1 = spec.decreases(lctx(x, i))
                         self.oblige(x, f"{tag}:decreases", z3.And(dec0 >= 0, d1 < dec0), "loop", s)
                     body_states.append(x)
+        self.loop_stack = outer_idx
         for b in body_states:
             if b.status in ("run", "cont"):
                 b.status = "run"
@@ -1323,11 +1341,14 @@ class Engine:
         out = [(b, None) for b in bad]
         if okst is not None:
             v = from_int(ty, okst.heap.get(attr, obj.t))
-            if v.ty.kind in ("ref", "list", "any", "deque") and okst.pure is None:
+            if v.ty.kind in ("ref", "list", "any", "deque"):
                 # references stored in the heap exist: below the allocation counter; a field array
                 # never written on this path still holds entry-state references (< alloc at entry)
                 untouched = self.h0 is not None and okst.heap.farr(attr).eq(self.h0.farr(attr))
-                okst.assume(z3.And(v.t >= 0, v.t < (self.h0.alloc if untouched else okst.heap.alloc)))
+                if okst.pure is None:
+                    okst.assume(z3.And(v.t >= 0, v.t < (self.h0.alloc if untouched else okst.heap.alloc)))
+                if untouched:
+                    okst.heap.mark_old(v.t)
             out.append((okst, v))
         return out
 
@@ -1364,10 +1385,13 @@ class Engine:
         if okst is not None:
             elem = base.ty.arg
             v = from_int(elem, okst.heap.at(base, j), okst.heap.atx(base, j) if elem.kind == "xint" else None)
-            if v.ty.kind in ("ref", "list", "any", "deque") and okst.pure is None:
+            if v.ty.kind in ("ref", "list", "any", "deque"):
                 region = base.ty.region or "c"
                 untouched = self.h0 is not None and okst.heap.arrs(region)[1].eq(self.h0.arrs(region)[1])
-                okst.assume(z3.And(v.t >= 0, v.t < (self.h0.alloc if untouched else okst.heap.alloc)))
+                if okst.pure is None:
+                    okst.assume(z3.And(v.t >= 0, v.t < (self.h0.alloc if untouched else okst.heap.alloc)))
+                if untouched:
+                    okst.heap.mark_old(v.t)
             out.append((okst, v))
         return out
 
